@@ -100,6 +100,11 @@ def oracle_addresses(d):
             return o.get("address", o.get("address_offset") or 0) or 0, o.get("repeat")
         t = regs[o["target"]]
         ov = o["override"]
+        if ov["kind"] == "block":
+            a = ov.get("address_offset")
+            if a is None:
+                a = t.get("address_offset") or 0
+            return a, ov.get("repeat") or t.get("repeat")
         a = ov.get("address")
         if a is None:
             a = t.get("address")
@@ -113,11 +118,14 @@ def oracle_addresses(d):
                 a = o.get("address_offset") or 0
             n = o["name"].lower()
             idxs = [None] if not r else list(range(r["count"]))
+            # a block ref leads to its TARGET's objects, at the ref's own offset / repeat
+            inner = o["objects"] if o["kind"] == "block" else \
+                (regs[o["target"]]["objects"] if o["kind"] == "ref" and o["override"]["kind"] == "block" else None)
             for i in idxs:
                 key = prefix + n + (f"[{i}]" if i is not None else "")
                 addr = base + a + (i * r["stride"] if i is not None else 0)
-                if o["kind"] == "block":
-                    rec(o["objects"], key + "/", addr)
+                if inner is not None:
+                    rec(inner, key + "/", addr)
                 else:
                     out[key] = addr
     rec(d["objects"], "", 0)
@@ -199,7 +207,8 @@ def run(ctx):
     known = {k["id"]: k for k in vlib.load_known_findings("C04")}
     rng = random.Random(ctx.seed + 4)
     want = 24 if ctx.tier == "quick" else 200
-    prof = gendev.Profile(conversions=False, enums=False, reset_values=False, wide=False, max_objects=5, max_depth=2, neg_stride=True)
+    prof = gendev.Profile(conversions=False, enums=False, reset_values=False, wide=False, max_objects=5, max_depth=2, neg_stride=True,
+                          block_refs=True)
     cases, defs = [], {}
     tries = 0
     while len(cases) < want * 3 and tries < want * 8:
